@@ -20,10 +20,14 @@ def cases(chk):
     for path in sorted(glob.glob(os.path.join(common.ROOT, "corpus", "C13", "*.json"))):
         c = json.load(open(path))
         yield c["source"], c["n_init"], "corpus"
+    for src, n_init in R.call_matrix():
+        yield src, n_init, "callmatrix"
     n = 220 if chk.tier == "thorough" else 28
     for _ in range(n):
-        prog = R.gen_program(chk.rng, chk.rng.randint(3, 6), codeblocks=chk.rng.random() < 0.2,
-                             struct=chk.rng.random() < 0.3, calls=chk.rng.random() < 0.2)
+        module = chk.rng.random() < 0.25
+        prog = R.gen_program(chk.rng, chk.rng.randint(3, 6), codeblocks=not module and chk.rng.random() < 0.2,
+                             struct=not module and chk.rng.random() < 0.3, calls=chk.rng.random() < 0.2,
+                             module=module)
         body = list(prog.body)
         x = chk.rng.random()
         origin = "gen"
@@ -31,7 +35,7 @@ def cases(chk):
             tops = [n for n, l in enumerate(body) if not l.startswith("    ")]
             body.insert(chk.rng.choice(tops + [len(body)]), f"  print *, {prog.scalars[0]}")
             origin = "gen+codeblock"
-        elif x < 0.3:
+        elif x < 0.3 and not module:
             body.append(f"  if ({prog.scalars[0]} > 50) return")
             origin = "gen+return"
         yield R.source_of(prog, body), R.n_init_nodes(prog), origin
@@ -142,7 +146,8 @@ def run(chk):
         parsed = R.Parsed(src, n_init)
         dist["programs"] += 1
         nb = len(parsed.body)
-        regions = [(i, j, False) for i in range(nb) for j in range(i + 1, nb + 1)]
+        regions = [(i, j, False) for i in range(nb) for j in range(i + 1, nb + 1)
+                   if origin != "callmatrix" or (i, j) in ((1, 2), (0, 3))]
         if first:
             regions.append((0, 0, False))
             first = False
